@@ -542,17 +542,9 @@ inline Verdict judge_propagation(JudgeInput const& ji)
                 P3 q = to_p3(e.arg);
                 // site: was the geometry direction refreshed for this substep?  (set_dir is
                 // skipped when the chord is shorter than minimum_step)
-                bool dir_set = false;
-                for (std::size_t g = gi - 1; g-- > 0;)
-                {
-                    if (tr.geo[g].kind == 'I' || tr.geo[g].kind == 'B')
-                        break;
-                    if (tr.geo[g].kind == 'D')
-                    {
-                        dir_set = true;
-                        break;
-                    }
-                }
+                // (when it is done, set_dir immediately precedes the find_next_step that
+                // accepted the substep)
+                bool dir_set = gi >= 3 && tr.geo[gi - 2].kind == 'F' && tr.geo[gi - 3].kind == 'D';
                 v.add("C08/escaped-volume/" + (dir_set ? sc : std::string("direction-not-updated")),
                       fmt("accepted substep end (%.17g, %.17g, %.17g) (geometry call #%zu) is outside start volume "
                           "%d (%s) by %.3g: a boundary was passed without being detected; outcome %s",
